@@ -668,7 +668,7 @@ func childMain(in, out string) {
 	if !cases[0].Raw && conf == 0 {
 		conf = cases[0].Cap // replay files written before Conf existed
 	}
-	k := hubkit.Start(lib.RelayOpts{BufferSize: int64(conf), RawBufferSize: cases[0].Raw})
+	k := hubkit.Start(lib.RelayOpts{BufferSize: int64(conf), RawBufferSize: cases[0].Raw, StatsEvery: time.Hour}) // the status reporter stays silent unless asked
 	k.Slack = 6 * time.Second
 	co := &ChildOut{Dist: map[string]int{}}
 	for i := range cases {
